@@ -227,9 +227,14 @@ def load_known(prop):
     return [e for e in entries.get("findings", []) if e.get("property") == prop]
 
 
+def sig_matches(entry_signature, signature) -> bool:
+    """A listed signature matches a violation when every key it names has the same value there."""
+    return all(signature.get(key) == val for key, val in entry_signature.items())
+
+
 def match_known(entries, signature):
     for entry in entries:
-        if entry.get("status") == "known" and entry.get("signature") == signature:
+        if entry.get("status") == "known" and sig_matches(entry.get("signature", {}), signature):
             return entry
     return None
 
